@@ -103,6 +103,49 @@ pub fn ctor_consts() -> Vec<(usize, &'static str, u64, &'static str)> {
     ]
 }
 
+/// named DSCP code points with the values their RFCs assign (RFC 2474 class selectors CSn = n << 3,
+/// RFC 2597 AFxy = 8x + 2y, RFC 3246 EF = 46, RFC 5865 VOICE-ADMIT = 44, RFC 8622 LE = 1)
+pub fn dscp_named() -> Vec<(&'static str, u64, u64)> {
+    vec![
+        ("IpDscp::CS0", IpDscp::CS0.value() as u64, 0),
+        ("IpDscp::CS1", IpDscp::CS1.value() as u64, 8),
+        ("IpDscp::CS2", IpDscp::CS2.value() as u64, 16),
+        ("IpDscp::CS3", IpDscp::CS3.value() as u64, 24),
+        ("IpDscp::CS4", IpDscp::CS4.value() as u64, 32),
+        ("IpDscp::CS5", IpDscp::CS5.value() as u64, 40),
+        ("IpDscp::CS6", IpDscp::CS6.value() as u64, 48),
+        ("IpDscp::CS7", IpDscp::CS7.value() as u64, 56),
+        ("IpDscp::AF11", IpDscp::AF11.value() as u64, 10),
+        ("IpDscp::AF12", IpDscp::AF12.value() as u64, 12),
+        ("IpDscp::AF13", IpDscp::AF13.value() as u64, 14),
+        ("IpDscp::AF21", IpDscp::AF21.value() as u64, 18),
+        ("IpDscp::AF22", IpDscp::AF22.value() as u64, 20),
+        ("IpDscp::AF23", IpDscp::AF23.value() as u64, 22),
+        ("IpDscp::AF31", IpDscp::AF31.value() as u64, 26),
+        ("IpDscp::AF32", IpDscp::AF32.value() as u64, 28),
+        ("IpDscp::AF33", IpDscp::AF33.value() as u64, 30),
+        ("IpDscp::AF41", IpDscp::AF41.value() as u64, 34),
+        ("IpDscp::AF42", IpDscp::AF42.value() as u64, 36),
+        ("IpDscp::AF43", IpDscp::AF43.value() as u64, 38),
+        ("IpDscp::EF", IpDscp::EF.value() as u64, 46),
+        ("IpDscp::VOICE_ADMIT", IpDscp::VOICE_ADMIT.value() as u64, 44),
+        ("IpDscp::LOWER_EFFORT", IpDscp::LOWER_EFFORT.value() as u64, 1),
+        ("IpEcn::ONE", IpEcn::ONE.value() as u64, 1),
+        ("IpEcn::TWO", IpEcn::TWO.value() as u64, 2),
+    ]
+}
+
+/// `IpDscpKnown` (the IANA registry as an enum) for the DSCP value `v` (0..=63): Ok((discriminant as u8,
+/// value of `IpDscp::from(known)`)) or Err(value carried by the error)
+pub fn dscp_known(v: u8) -> Result<(u64, u64), u64> {
+    let d = IpDscp::try_new(v).expect("0..=63");
+    match (IpDscpKnown::try_from_ip_dscp(d), IpDscpKnown::try_from(d)) {
+        (Ok(k), Ok(k2)) if k == k2 => Ok((u8::from(k) as u64, IpDscp::from(k).value() as u64)),
+        (Err(e), Err(e2)) if e == e2 => Err(e.value as u64),
+        (a, b) => panic!("IpDscpKnown::try_from_ip_dscp and TryFrom disagree for {}: {:?} / {:?}", v, a, b),
+    }
+}
+
 /// `Qrv::VALUES` ("static array with all possible values") as numbers
 pub fn qrv_values() -> Vec<u64> {
     Qrv::VALUES.iter().map(|q| q.value() as u64).collect()
